@@ -427,5 +427,5 @@ func init() {
 	core.Register("C10", genC10, Run)
 	core.Register("C22", genC22, Run)
 	core.Register("C24", genC24, Run)
-	core.Register("C53", genC53, Run)
+	core.Register("C53we", genC53, Run)
 }
